@@ -16,6 +16,7 @@ from __future__ import annotations
 
 import concurrent.futures
 import random
+from datetime import date, timedelta
 
 from harness import wholerun as W
 
@@ -23,12 +24,39 @@ from harness import wholerun as W
 # ------------------------------------------------------------------------------------------------
 # running configurations
 # ------------------------------------------------------------------------------------------------
+def leapday_weather(job):
+    """pre-run hook (worker process): keep the configuration's weather but make 30 December fine and
+    31 December outside every envelope, at every cell -- in a leap year 31 December is day-of-year 366,
+    the last day of the weather file"""
+    from harness import shim
+
+    base = shim.WEATHER["fn"]
+
+    def fn(doy, i, j):
+        if doy == 364:
+            return (15.0, 1.0, 0.0)
+        if doy == 365:
+            return (15.0, 12.0, 0.0)
+        return base(doy, i, j) if base is not None else (15.0, 1.0, 0.0)
+
+    shim.set_weather(fn)
+
+
 def make_cfgs(ctx, n, flavour):
     cfgs = []
     for k in range(n):
         seed = ctx.rng.randrange(1 << 30)
         rng = random.Random(seed)
         ov = {"ndays": rng.choice([120, 200]) if ctx.quick else rng.choice([120, 200, 400])}
+        if flavour == "c08" and k == 0:
+            # a run whose last day is 31 December of a leap year (day-of-year 366), weather considered,
+            # with the stationary method that checks every site every day
+            ov = {"start": [2024, 11, 1], "ndays": 61}
+        if flavour == "c10" and k == 1:
+            # the same method parameters build several Method objects in one process: two simulations
+            # in debug mode and two programs sharing a method label (upfront > 0, two crews)
+            ov["n_sims"] = 2
+            ov["ndays"] = 120
         if flavour == "c08":
             ov["consider_weather"] = (k % 3 != 2)
         else:
@@ -41,6 +69,15 @@ def make_cfgs(ctx, n, flavour):
             # the shape named in the property: a survey that uses up the crew's day to the minute
             cfg["methods"]["OGI"].update({"survey_time": 420, "max_workday": 8, "t_bw_sites": [30.0],
                                           "consider_daylight": False})
+        if flavour == "c08" and k == 0:
+            cfg["consider_weather"] = True
+            if "P_fix" not in [p["name"] for p in cfg["programs"]]:
+                cfg["programs"] = cfg["programs"] + [{"name": "P_fix", "methods": ["FIX", "OGI_FU2"]}]
+            cfg["pre_run_hook"] = "harness.props._crew_wholerun:leapday_weather"
+        if flavour == "c10" and k == 1:
+            cfg["methods"]["OGI"]["cost"]["upfront"] = 512.0
+            cfg["methods"]["OGI"]["crew_count"] = 2
+            cfg["programs"] = cfg["programs"] + [{"name": "P_OGI_again", "methods": ["OGI"]}]
         cfg["_verif_seed"] = seed
         cfgs.append(cfg)
     return cfgs
@@ -144,6 +181,8 @@ def oracle_c08(ctx, cfg, prog, events, violate):
         for e in evs:
             (_, _, _, site, crew, r0, r1, s_time, travel, p0, p1, complete, in_prog, visited, last, wchk) = e
             n_visits += 1
+            if (date(*cfg["start"]) + timedelta(days=day)).timetuple().tm_yday == 366:
+                ctx.count("wholerun:survey-events-on-day-366-of-leap-year")
             # hypothesis ReqOk of the day theorems, measured on what the real schedule handed over
             req_ok = (travel >= 0 and p0 >= 0 and (s_time is None or p0 <= s_time or m["deployment_type"] == "stationary")
                       and (m["deployment_type"] != "stationary" or p0 == 0))
@@ -349,7 +388,8 @@ def oracle_c10(ctx, cfg, res, prog, sim, events, violate):
             exp_col = dep[4] + (m["cost"].get("upfront", 0) * n_crews if d == 0 else 0)
             if col != exp_col:
                 info["expected_column"] = exp_col
-                sig = "C10:upfront:not-exactly-once" if (col - dep[4]) != 0 and d != 0 else "C10:row:method-columns"
+                sig = ("C10:upfront:first-day-not-upfront-times-crews" if d == 0 else
+                       "C10:upfront:not-exactly-once" if (col - dep[4]) != 0 else "C10:row:method-columns")
                 violate(sig, "whole run: method deployment-cost column != deployment cost (+ upfront x crews on day 0)", info)
             cols_sum += col
             n_eval += 1
